@@ -285,6 +285,8 @@ pub(crate) fn c06_history<S: SubjApi>(nops: usize) {
 
 thread_local! {
   static PEEKED: RefCell<Option<Val>> = RefCell::new(None);
+  /// what next_by's closure saw
+  static PEEKED_F: RefCell<Option<Val>> = RefCell::new(None);
 }
 
 /// fires its nested action on the second item it receives (the first one is the
@@ -326,6 +328,8 @@ pub(crate) trait BehApi: Clone + 'static {
   fn sub_nesting_first(&self, p: Probe, j: Probe) -> Unsub;
   fn b_next(&mut self, v: Val);
   fn b_next_by_plus(&mut self, d: Val);
+  /// next_by whose closure looks at the subject itself (peek on a clone) before computing f(current)
+  fn b_next_by_peeking(&mut self, d: Val);
   fn b_peek(&self) -> Val;
   fn b_complete(&self);
   fn b_error(&self, x: Val);
@@ -370,6 +374,14 @@ macro_rules! impl_beh_api {
       fn b_next_by_plus(&mut self, d: Val) {
         Behavior::<Val, Val>::next_by(self, move |x| model::plus(&x, &d))
       }
+      fn b_next_by_peeking(&mut self, d: Val) {
+        let me = self.clone();
+        Behavior::<Val, Val>::next_by(self, move |x| {
+          let seen = Behavior::<Val, Val>::peek(&me);
+          PEEKED_F.with(|c| *c.borrow_mut() = Some(seen));
+          model::plus(&x, &d)
+        })
+      }
       fn b_peek(&self) -> Val {
         Behavior::<Val, Val>::peek(self)
       }
@@ -411,9 +423,20 @@ pub(crate) fn c12_history<B: BehApi>(nops: usize) {
           clones[which].b_next(v.clone());
           // "the most recent value passed to any clone": also after a terminal
           cur = v;
-        } else {
+        } else if e::choose_bool() {
           e::note(format!("c{}.next_by(+{})", which, v.show()));
           clones[which].b_next_by_plus(v.clone());
+          cur = model::plus(&cur, &v);
+        } else {
+          e::note(format!("c{}.next_by(|x| {{ peek(); x + {} }})", which, v.show()));
+          let before = cur.clone();
+          PEEKED_F.with(|x| *x.borrow_mut() = None);
+          clones[which].b_next_by_peeking(v.clone());
+          // the closure ran with the value cell free: it saw the value that was current then
+          match PEEKED_F.with(|x| x.borrow_mut().take()) {
+            Some(p) => e::check(p.eq_t(&before), &format!("{}/peek-inside-next_by", B::name()), || format!("peek() from inside next_by's closure returned {}, the current value was {}", p.show(), before.show())),
+            None => e::fail(&format!("{}/next_by-closure-not-run", B::name()), || "next_by did not call its closure".to_string()),
+          }
           cur = model::plus(&cur, &v);
         }
         if !done {
